@@ -18,7 +18,8 @@ RULE = ("one PRNG drives six paired streams. kfl-lattice: sizes 2-4, dims 1-4, t
         "where the code allows), logits zero/small/dyadic/|p|<=12; inputs on derived keypoints, between, outside, at "
         "the missing value. cdffn-layer: input dims 1-6, sparsity 1-3, units, 1-4 keypoints, relu6/sigmoid, mean/none, "
         "fixed/learned_shared/learned_per_input scaling incl. negative raw values through the constraint; fn scaling "
-        "None/broadcast shapes/exp transform. parallel: 1-4 PWL/categorical calibrators, tensor or list input, "
+        "None/broadcast shapes/exp transform. cdf-degenerate: sparsity_factor 0/-1/-2/-3 for the layer and the function "
+        "(both must raise ValueError, model sparsityOf) and input_dim = 0 (model: no numbers; both forms must agree). parallel: 1-4 PWL/categorical calibrators, tensor or list input, "
         "single_output on/off. aggregation: lattice model over 1-3 ragged features, rows of length 0-5. rtl: dict or "
         "plain inputs, rank 1-3, sizes 2-3, hypercube/simplex, average on/off, random kernels assigned. "
         "Non-trivial = non-constant outputs; distinct = (pair, config class, output hash).")
@@ -781,6 +782,112 @@ def check_cdf_pair(ctx, case, real, replies):
   ctx.case(sig=("cdf", cls, case["fmode"], ohash(a)), nontrivial=float(np.ptp(a)) > 0, sample=dict(case=case, layer=a, fn=c))
 
 
+# =============================================================================== cdf: degenerate configurations
+def gen_cdf_degenerate(rng, kind=None):
+  """sparsity_factor < 1 (0 and negative: both entry points must raise ValueError since 1677739 / 75478be) and
+  inputs without columns (input_dim = 0: mean over an empty axis)"""
+  kind = kind or rng.choice(["bad_sparsity", "bad_sparsity", "bad_sparsity", "zero_width"])
+  K = rng.randint(1, 3)
+  B = rng.randint(1, 3)
+  if kind == "bad_sparsity":
+    f = rng.choice([0, 0, 0, -1, -2, -3])
+    I, U, W = rng.randint(1, 4), rng.randint(1, 4), rng.randint(1, 3)
+    if rng.random() < 0.5:
+      W = U                                   # the shape a caller who ignores the factor would pass
+  else:
+    f = rng.choice([1, 1, 2, 3])
+    I, W = 0, rng.randint(1, 2)
+    U = f * W
+    B = rng.randint(2, 3)                     # wire format: a single empty row "_" would read as zero examples
+  kernel = [[[val(rng, "dyadic") for _ in range(W)] for _ in range(K)] for _ in range(I)]
+  X = [[Fraction(rng.randint(-16, 24), 8) for _ in range(I)] for _ in range(B)]
+  return dict(pair="cdf-degenerate", kind=kind, f=f, I=I, U=U, W=W, K=K, B=B, kernel=kernel, X=X,
+              act=rng.choice(["relu6", "relu6", "sigmoid"]), red=rng.choice(["mean", "mean", "none", "geometric_mean"]),
+              stype=rng.choice(["fixed", "learned_shared", "learned_per_input"]),
+              entry=rng.choice(["tf.function", "python", "python"]))
+
+
+def degenerate_status(exc, y):
+  """error class of a call; a call that returns no numbers (NaN entries or an empty tensor) is the model's
+  `.error .other` ("the code does not raise a ValueError but does not return numbers either")"""
+  if exc is not None:
+    return classify_exc(exc).split(":")[0] if classify_exc(exc).startswith("ERR Other") else classify_exc(exc)
+  if y.size == 0 or not np.all(np.isfinite(y)):
+    return "ERR Other"
+  return "ok"
+
+
+def run_cdf_degenerate(case):
+  tf = quiet_tf()
+  import tensorflow_lattice as tfl
+  from tensorflow_lattice.python import conditional_cdf as cc
+  I, K, W, U, f, B = case["I"], case["K"], case["W"], case["U"], case["f"], case["B"]
+  X = np.array([[float(v) for v in row] for row in case["X"]], dtype=np.float32).reshape(B, I)
+  kern = np.array([float(v) for kk in case["kernel"] for r in kk for v in r], dtype=np.float32).reshape(1, I, K, W)
+  fn = cc.cdf_fn if case["entry"] == "tf.function" else cc.cdf_fn.python_function
+  real = {}
+
+  def layer_call():
+    layer = tfl.layers.CDF(num_keypoints=K, units=U, activation=case["act"], reduction=case["red"],
+                           input_scaling_type=case["stype"], sparsity_factor=f)
+    layer(tf.constant(X))
+    layer.kernel.assign(kern)
+    return layer(tf.constant(X)).numpy()
+
+  for which, call in (("CDF", layer_call),
+                      ("cdf_fn", lambda: fn(tf.constant(X), tf.constant(kern), None, units=U, activation=case["act"],
+                                            reduction=case["red"], sparsity_factor=f).numpy())):
+    try:
+      y = call()
+      real[which] = dict(status=degenerate_status(None, y), y=y, exc=None)
+    except Exception as e:
+      real[which] = dict(status=degenerate_status(e, None), y=None, exc=type(e).__name__ + ": " + str(e)[:160])
+  red = "none" if case["red"] == "none" else "mean"       # error paths do not depend on the reduction
+  rows = [case["kernel"][i][k] for i in range(I) for k in range(K)]
+  lines = ["alt.cdflayer relu6 %s %d %d %d %d 0 1 %s %s" % (red, f, U, K, W, frl2(rows), frl2(case["X"])),
+           "alt.cdffn relu6 %s %d %d %d %d none none none _ %s %s" % (red, f, U, K, W, frl2(rows), frl(case["X"][0]))]
+  return lines, real
+
+
+def check_cdf_degenerate(ctx, case, real, replies, keyf=None, fail=None, c15=False):
+  """C14: sparsity < 1 must be a ValueError of BOTH entry points (model: sparsityOf); a zero-width input is
+  outside the numbers the model returns (`.error .other`) and both forms must still agree (NaN pattern, shape).
+  C15 (c15=True): the zero-width NaN breaks "outputs lie in [0, 1]" (finding F-C15-f)."""
+  keyf = keyf or (lambda which, cls: dict(pair="cdffn-layer", cls=cls, fn=which))
+  fail = fail or (lambda clause, key, case, obs, detail="": ctx.fail(clause, key, case, obs, detail))
+  kind = case["kind"]
+  for which, reply in zip(("CDF", "cdf_fn"), replies):
+    r = real[which]
+    model = reply if reply.startswith("ERR") or reply == "bad-op" else "ok"
+    ctx.count("cdf-degenerate:%s:f%d:%s:%s" % (kind, case["f"], which, r["status"]))
+    if model != r["status"]:
+      ctx.disagree("alt.cdf.errors", dict(case, which=which), r["status"] + " " + str(r["exc"]), model,
+                   "accept / reject of a degenerate CDF configuration")
+    else:
+      ctx.agree("alt.cdf.errors")
+    if kind == "bad_sparsity":
+      if r["status"] != "ERR ValueError":
+        fail("must_reject", keyf(which, "sparsity_below_one"), dict(case, which=which),
+             r["exc"] if r["exc"] else r["y"],
+             "%s with sparsity_factor=%d must be rejected with a ValueError; got %s" % (which, case["f"], r["exc"] or "an output"))
+    elif c15:
+      if r["exc"] is not None and r["status"] != "ERR ValueError":
+        fail("raises", keyf(which, "zero_input_dim"), dict(case, which=which), r["exc"], "%s over zero input dimensions" % which)
+      elif r["y"] is not None and not np.all(np.isfinite(r["y"])):
+        fail("finite", keyf(which, "zero_input_dim"), dict(case, which=which), r["y"],
+             "%s over zero input dimensions (reduction %s) returns NaN: not in [0, 1]" % (which, case["red"]))
+  if kind == "zero_width" and not c15:
+    a, c = real["CDF"], real["cdf_fn"]
+    same = a["status"] == c["status"] and (a["y"] is None) == (c["y"] is None) and (
+        a["y"] is None or (a["y"].shape == c["y"].shape and np.array_equal(a["y"], c["y"], equal_nan=True)))
+    if not same:
+      ctx.fail("agree", keyf("both", "zero_input_dim"), case, dict(layer=a["y"] if a["exc"] is None else a["exc"],
+                                                                     fn=c["y"] if c["exc"] is None else c["exc"]),
+               "CDF layer vs cdf_fn over zero input dimensions")
+  ctx.case(sig=("cdf-degenerate", kind, case["f"], case["U"], case["K"], case["red"], real["CDF"]["status"]),
+           nontrivial=False, sample=case)
+
+
 # =============================================================================== parallel combination
 def gen_par(rng):
   n = rng.randint(1, 4)
@@ -1063,6 +1170,8 @@ def do_case(case, rng=None):
   if p == "cdffn-layer":
     real = run_cdf(case)
     return cdf_lines(case, real), real
+  if p == "cdf-degenerate":
+    return run_cdf_degenerate(case)
   if p == "parallel":
     return run_par(case)
   if p == "aggregation":
@@ -1073,12 +1182,14 @@ def do_case(case, rng=None):
 
 
 CHECK = {"kfl-lattice": check_kfl, "pwlfn-layer": check_pwlfn_pair, "cdffn-layer": check_cdf_pair,
+         "cdf-degenerate": check_cdf_degenerate,
          "parallel": check_par, "aggregation": check_agg, "rtl": check_rtl}
 
 
 def run(ctx):
   rng = ctx.rng
   plan = [(gen_kfl, ctx.n(140, 2500)), (lambda r: gen_pwlfn(r), ctx.n(260, 5000)), (gen_cdf, ctx.n(220, 4000)),
+          (gen_cdf_degenerate, ctx.n(24, 300)),
           (gen_par, ctx.n(70, 1200)), (gen_agg, ctx.n(50, 800)), (gen_rtl, ctx.n(60, 1000))]
   items, lines = [], []
   for gen, count in plan:
